@@ -118,3 +118,11 @@
 (declare-fun numInt64E (String) ErrV)
 (declare-fun numFloat (String) Int)
 (declare-fun numFloatE (String) ErrV)
+; YAML scalars: the resolved short tag of a node and the strconv parses of its text
+(declare-fun yamlShortTag (Int) String)
+(declare-fun parseBoolV (String) Bool)
+(declare-fun parseBoolE (String) ErrV)
+(declare-fun parseIntV (String Int Int) Int)
+(declare-fun parseIntE (String Int Int) ErrV)
+(declare-fun parseFloatV (String Int) Int)
+(declare-fun parseFloatE (String Int) ErrV)
